@@ -1,4 +1,6 @@
 ---------------------------- MODULE MC_EcsDenial ----------------------------
 EXTENDS EcsDenial
 MCFlags == {[do |-> TRUE, ad |-> FALSE], [do |-> FALSE, ad |-> TRUE], [do |-> FALSE, ad |-> FALSE]}
+\* the resolver-tier simulation keeps the request menu small so that Birth is drawn often enough
+MCFlagsFew == {[do |-> TRUE, ad |-> FALSE], [do |-> FALSE, ad |-> FALSE]}
 =============================================================================
